@@ -418,6 +418,9 @@ func (r *Run) DoCmd(c Cmd) *Proc {
 	// pick the admissible post-state that matches the observation
 	n := r.finish(c, pred, rm, p, post)
 	if n == nil {
+		// whether or not the effect is the documented one, what the reply
+		// says must be what the following read shows
+		r.checkReply(c, pred, rm, p, post)
 		r.resync(post)
 		r.afterStep(post)
 		return p
